@@ -130,6 +130,10 @@ func (v *visitor) IdentifierNode(node *ast.IdentifierNode) reflect.Type {
 		if t.Ambiguous {
 			return v.error(node, "ambiguous identifier %v", node.Value)
 		}
+		if t.Type == nil {
+			// A nil value in a map environment tells nothing about the type.
+			return interfaceType
+		}
 		return t.Type
 	}
 	if !v.strict {
